@@ -167,6 +167,10 @@ func runCCrash(r *verifsim.Run) {
 			s.Abort()
 		}
 	}
+	checkCleanupWired(r)
+	if r.Failed() {
+		return
+	}
 	res := execSched(r, sc, opt)
 	r.Logf("steps=%d switches=%d sig=%016x crashes=%d observations=%d final=%v", res.Steps, res.Switches, res.Sig, nCrash, nObs, res.Final)
 	r.Count("steps", res.Steps)
